@@ -60,7 +60,14 @@ def snap_command(input_workload, output_file, ticks_per_second, force=False):
             # Modify arrival_seconds if it's set (not empty)
             if row['arrival_seconds'].strip():
                 original = float(row['arrival_seconds'])
-                snapped = math.floor(original * ticks_per_second) / ticks_per_second
+                ticks = original * ticks_per_second
+                # a time already on a tick boundary (up to float rounding,
+                # e.g. 0.29 * 100 = 28.999999999999996) stays on that tick
+                nearest = round(ticks)
+                if math.isclose(ticks, nearest, rel_tol=1e-12, abs_tol=1e-9):
+                    snapped = nearest / ticks_per_second
+                else:
+                    snapped = math.floor(ticks) / ticks_per_second
                 row['arrival_seconds'] = snapped
 
             writer.writerow(row)
